@@ -32,6 +32,9 @@ pub fn runner(prop: &str) -> Option<fn(&str, u64, usize, Tier) -> RunReport> {
         "C02" | "C04" | "C12" => Some(run_crash),
         "C03" => Some(run_c03),
         "C11" => Some(run_c11),
+        "C08" => Some(crate::props3::run_c08),
+        "C09" => Some(crate::props3::run_c09),
+        "C10" => Some(crate::props3::run_c10),
         _ => None,
     }
 }
@@ -99,6 +102,9 @@ pub fn run_crash(prop: &str, seed: u64, index: usize, tier: Tier) -> RunReport {
             rep.signatures.push(crate::props::case_signature(&case, &d));
         }
         rep.evaluations += 1;
+    }
+    if prop == "C12" {
+        crate::props3::c12_damage(prop, seed, &case, thorough, &mut rep);
     }
     let mut rng = Rng::new(mix(&[seed, 0xC2A5]));
     let pts = enumerate_points(&d, thorough, &mut rng);
